@@ -1,6 +1,7 @@
 /- C02 line-protocol handlers (Rust side: harness/src/c02.rs). -/
 import Driver.GraphIO
 import EchoVerif.Model.Merge
+import EchoVerif.Model.MergePolicy
 
 namespace Driver.C02
 open EchoVerif EchoVerif.Graph EchoVerif.Merge Driver Driver.GraphIO
@@ -159,21 +160,21 @@ def policy : P String := do
   let outs := its.map (rawOut st warp)
   if outs.any Option.isNone then pure "panic" else
   let shardItems (sid : Nat) : List Item := its.filter (fun it => shardOf it.scope == sid)
-  let shardDelta (sid : Nat) : List Entry := (shardItems sid).flatMap (fun it => (rawOut st warp it).getD [])
+  let g (it : Item) : List Entry := (rawOut st warp it).getD []
   let n := Generated.numShards
   let wc := cappedWorkers w
-  let nonEmpty := (List.range n).filter (fun sid => !(shardItems sid).isEmpty)
+  -- the model's executors (Model/MergePolicy.lean `execPolicy`); per-shard accumulation does not
+  -- depend on the claim outcome (Props/C02 `policy_exec_refines_schedule`), so any `owner` will do
+  let run (p : Policy) : List (List Entry) := execPolicy g shardItems (fun s => s % wc) p wc n
   let deltas : Option (List (List Entry)) ←
-    (if its.isEmpty then
-      (match pol with
-        | "ded" => pure (some [])
-        | "dpw" | "dps" | "spw" | "sps" => pure (some ((List.range wc).map (fun _ => [])))
-        | x => throw s!"bad policy {x}")
-    else match pol with
-      | "spw" => pure (some ((staticRoundRobin wc n).map (fun claims => claims.flatMap shardDelta)))
-      | "sps" | "dps" | "ded" => pure (some (nonEmpty.map shardDelta))
-      | "dpw" => pure none
+    (match pol with
+      | "spw" => pure (some (run .staticPerWorker))
+      | "sps" => pure (some (run .staticPerShard))
+      | "dps" => pure (some (run .dynamicPerShard))
+      | "ded" => pure (some (run .dedicatedPerShard))
+      | "dpw" => pure (if its.isEmpty then some (run .dynamicPerWorker) else none)
       | x => throw s!"bad policy {x}" : P (Option (List (List Entry))))
+  let shardDelta := Merge.shardDelta g shardItems
   let merged := m [.success ((List.range n).flatMap shardDelta)]
   let dstr := match deltas with
     | none => "deltas ?"
